@@ -57,7 +57,9 @@ Perturbs == <<
   [kind |-> "w", val |-> 0], [kind |-> "ww", val |-> 0], [kind |-> "inapp", val |-> 0],
   [kind |-> "garbage", val |-> 0], [kind |-> "garbage", val |-> 1],
   \* a value at the end of an interval's range with one lower field pushed above zero
-  [kind |-> "over_us", val |-> 1], [kind |-> "over_ss", val |-> 1], [kind |-> "over_mm", val |-> 1] >>
+  [kind |-> "over_us", val |-> 1], [kind |-> "over_ss", val |-> 1], [kind |-> "over_mm", val |-> 1],
+  \* the same FIELD given twice through two different codes (24-hour and 12-hour hour): "a field code repeats"
+  [kind |-> "dupalt", val |-> 0] >>
 NPerturbs == Len(Perturbs)
 NVariants == NStyles + MaxCut + NPerturbs
 
@@ -137,6 +139,12 @@ PerturbOut(cs, pt) ==
                                  extra == SpellToken(tok, ty, f, Canon, NoOv) IN
                              IF extra = NA \/ base(NoOv) = NA THEN none
                              ELSE <<pic \o <<" ">> \o UnlexTok(tok), base(NoOv) \o <<" ">> \o extra>>
+                          ELSE none
+    [] pt.kind = "dupalt" -> IF n < MaxFields - 1 /\ base(NoOv) # NA /\ ty \in {"T", "TS", "OD"} /\ has({"hh24", "hh12"}) THEN
+                             LET alt == IF has({"hh24"}) THEN <<"hh12", 0>> ELSE <<"hh24", 0>>
+                                 extra == SpellToken(alt, ty, f, Canon, NoOv) IN
+                             IF extra = NA THEN none
+                             ELSE <<pic \o <<" ">> \o UnlexTok(alt), base(NoOv) \o <<" ">> \o extra>>
                           ELSE none
     [] pt.kind \in {"w", "ww"} -> IF n < MaxFields - 1 /\ base(NoOv) # NA THEN
                              <<pic \o <<" ">> \o UnlexTok(<<pt.kind, 0>>), base(NoOv) \o <<" ", "0", "1">>>> ELSE none
